@@ -1,6 +1,7 @@
 """STIX 2.0 Relationship Objects."""
 
 from collections import OrderedDict
+import re
 
 from ..properties import (
     BooleanProperty, IDProperty, IntegerProperty, ListProperty,
@@ -50,6 +51,15 @@ class Relationship(_RelationshipObject):
             kwargs['target_ref'] = target_ref
 
         super(Relationship, self).__init__(**kwargs)
+
+    def _check_object_constraints(self):
+        super(Relationship, self)._check_object_constraints()
+
+        if not re.match(r"^[a-z0-9-]+\Z", self.get('relationship_type', '')):
+            raise ValueError(
+                "'relationship_type' must only contain the characters a-z "
+                "(lowercase ASCII), 0-9, and hyphen (-).",
+            )
 
 
 class Sighting(_RelationshipObject):
